@@ -409,7 +409,11 @@ func (dest *destination) implicitWithdraw(logger *slog.Logger, newPath *Path) *P
 				slog.String("Path", path.String()))
 
 			found = i
-			newPath.localID = path.localID
+			if newPath != path {
+				// (a soft reset in re-inserts the very object the table holds:
+				// nothing to carry over, and no write to a path others may read)
+				newPath.localID = path.localID
+			}
 			break
 		}
 	}
